@@ -58,7 +58,7 @@ BUDGET = {
 REQUIRED = dict(
     monitors=['prior-callback', 'loglike-equals-gaussian', 'callback-never-raises', 'invalid-never-finite',
               'same-vector-same-value', 'sampled-space-order', 'ndim-handed-to-sampler'],
-    classes=['sampler:nestle', 'sampler:multinest', 'sampler:polychord',
+    classes=['width-kind:3', 'sampler:nestle', 'sampler:multinest', 'sampler:polychord',
              'prior:mode-linear', 'prior:mode-log', 'prior:Uniform', 'prior:LogUniform', 'prior:Gaussian',
              'prior:LogGaussian', 'cube:interior', 'cube:face', 'cube:corner',
              'invalid:chem>1', 'invalid:inverted-nodes', 'invalid:guillot',
